@@ -10,8 +10,8 @@
        D    = <mt> <dg> <sz>
    Seek case:
      <id> S <content> <nops> (r <n> | s <off> <0|1|2> | c)*
-   Request-grammar case:
-     <id> A <request in the printed form>            (not used: the log is judged inside H cases)
+   Request-grammar case (the formal [allowed] against the harness's endpoint table):
+     <id> A <METHOD> <repo> <epkind> <arg> <digest> <mountd> <from> <ctype> <clen> <ra> <rb> <body>
    All strings hex encoded, "-" = empty. *)
 
 let z_of_int (i : int) : z =
@@ -185,6 +185,29 @@ let seek toks =
        | SClosed -> "closed")) out)
   | _ -> failwith "seek"
 
+(* A <METHOD> <repo> <epkind> <arg> <digest|-> <mountd|-> <from|-> <ctype|-> <clen|-> <ra|-> <rb|-> <body>
+   (absent = "-" for the optional fields; "~" = present but empty string) *)
+let grammar toks =
+  match toks with
+  | [m; repo; ek; arg; dg; md; mf; ct; cl; ra; rb; body] ->
+    let opt s = if s = "-" then None else if s = "~" then Some [] else Some (str_of_hex s) in
+    let meth = match m with "GET" -> GET | "HEAD" -> HEAD | "PUT" -> PUT | "POST" -> POST | _ -> DELETE in
+    let ep = match ek with
+      | "blob" -> EBlob (str_of_hex arg)
+      | "man" -> EManifest (str_of_hex arg)
+      | "up" -> EUploads
+      | "sess" -> ESession (n_of_int (int_of_string arg))
+      | _ -> EReferrers (str_of_hex arg) in
+    let q = { q_m = meth; q_repo = str_of_hex repo; q_ep = ep; q_digest = opt dg;
+              q_mount = (if md = "-" then None else Some ((match opt md with Some x -> x | None -> []),
+                                                         (match opt mf with Some x -> x | None -> [])));
+              q_accept = None; q_ctype = opt ct;
+              q_clen = (if cl = "-" then None else Some (n_of_int (int_of_string cl)));
+              q_range = (if ra = "-" then None else Some (n_of_int (int_of_string ra), n_of_int (int_of_string rb)));
+              q_body = str_of_hex body } in
+    if allowed q then "allowed=1" else "allowed=0"
+  | _ -> failwith "grammar"
+
 let () =
   iter_lines (fun l ->
     match split_ws l with
@@ -192,5 +215,6 @@ let () =
       (try Printf.printf "%s %s\n" id (history rest)
        with Unjudged -> Printf.printf "%s UNJUDGED\n" id)
     | id :: "S" :: rest -> Printf.printf "%s %s\n" id (seek rest)
+    | id :: "A" :: rest -> Printf.printf "%s %s\n" id (grammar rest)
     | [] -> ()
     | _ -> Printf.printf "BADLINE %s\n" l)
